@@ -55,6 +55,12 @@ pub struct SurfaceCfg {
     /// allow references to general entities declared in an internal DTD subset (`&e;`, `&nbsp;`, `&copy;`) as text:
     /// well-formed, non-empty character data that a reader cannot unescape without the DTD
     pub general_entities: bool,
+    /// character data that consists of Unicode white space which is not XML white space (U+00A0, U+3000, U+2003, U+0085):
+    /// non-blank text as far as XML is concerned
+    pub unicode_ws: bool,
+    /// a declared legacy encoding is kept even when the (UTF-8) document has non-ASCII characters: the library ignores the
+    /// declaration, and so must a program that claims to be the library plus a header (C12 only)
+    pub legacy_decl_any: bool,
 }
 
 impl SurfaceCfg {
@@ -76,6 +82,8 @@ impl SurfaceCfg {
             pis: true,
             long_content: true,
             general_entities: true,
+            unicode_ws: true,
+            legacy_decl_any: false,
         }
     }
     pub fn plain() -> Self {
@@ -96,6 +104,8 @@ impl SurfaceCfg {
             pis: true,
             long_content: false,
             general_entities: false,
+            unicode_ws: false,
+            legacy_decl_any: false,
         }
     }
 }
@@ -129,7 +139,9 @@ const TEXTS_ESC: &[(&str, &str)] = &[
 /// references to general entities declared by ENT_SUBSET (the logical value is what a DTD-aware parser would see)
 const TEXTS_ENT: &[(&str, &str)] = &[("&e;", "v"), ("&nbsp;", "\u{a0}"), ("&copy;", "(c)"), ("a&e;b", "avb"), ("&copy; 2024 &e;", "(c) 2024 v"), ("&d;", "d")];
 const ENT_SUBSET: &str = "<!ENTITY e \"v\"><!ENTITY nbsp \"&#160;\"><!ENTITY copy \"(c)\"><!ENTITY d 'd'>";
-const CDATAS: &[&str] = &["x", "<tag>&amp;</tag>", "]]", "a > b", "hello", "&lt;", "名", "]", "<!--no-->", "<?pi?>", "Tom & Jerry", "?a=1&b=2", "&unknown;", "&#xZZ;", "&"];
+const CDATAS: &[&str] = &["\u{a0}", "\u{3000}\u{2003}", "x", "<tag>&amp;</tag>", "]]", "a > b", "hello", "&lt;", "名", "]", "<!--no-->", "<?pi?>", "Tom & Jerry", "?a=1&b=2", "&unknown;", "&#xZZ;", "&"];
+/// Unicode white space that is not XML white space: character data like any other letter as far as XML is concerned
+const TEXTS_UWS: &[(&str, &str)] = &[("\u{a0}", "\u{a0}"), ("\u{3000}", "\u{3000}"), ("\u{2003}\u{2009}", "\u{2003}\u{2009}"), ("\u{85}", "\u{85}"), ("\u{2028}", "\u{2028}"), ("\u{a0}x\u{a0}", "\u{a0}x\u{a0}")];
 const CDATAS_PADDED: &[&str] = &[" x ", "\n x", " ", "\n"];
 
 const ATTR_VALUES: &[(&str, &str)] = &[("v", "v"), ("", ""), ("1", "1"), ("hello world", "hello world"), ("é", "é"), ("x-y_z.0", "x-y_z.0")];
@@ -339,6 +351,8 @@ impl<'t, 'c> Ser<'t, 'c> {
                 TEXTS_ENT
             } else if self.cfg.escapes && self.t.chance(70) {
                 TEXTS_ESC
+            } else if self.cfg.unicode_ws && self.t.chance(14) {
+                TEXTS_UWS
             } else {
                 TEXTS
             };
@@ -509,7 +523,7 @@ impl<'t, 'c> Ser<'t, 'c> {
         }
         if let Some((at, len)) = self.legacy_decl.take() {
             // the bytes are UTF-8: a legacy encoding may only be declared when they are pure ASCII
-            if self.out.is_ascii() {
+            if self.out.is_ascii() || self.cfg.legacy_decl_any {
                 self.n_legacy_decl += 1;
             } else {
                 self.out.splice(at..at + len, b"<?xml version=\"1.0\"?>".iter().copied());
